@@ -422,6 +422,7 @@ class Run(ExtraOps):
             return None
         self.check_hook_calls(ent, w.processor.calls[ncalls:], mat_before)
         self.check_hidden_leaves(ent, starts0, allowed)
+        self.logev(w.op_index, "rows", hashlib.sha1(repr(rows).encode()).hexdigest()[:10])
         ok = self.check_rows(ent, rows)
         self.check_bounds(ent, len(rows))
         if out is not ent.rel:
